@@ -50,21 +50,35 @@ class C02(runner.Check):
         return values.TYPES_QUICK if tier == "quick" else values.TYPES_THOROUGH
 
     def shards(self, tier):
-        return [(tier, ti, part) for ti in range(len(self.types(tier))) for part in range(2 if tier == "quick" else 8)]
+        return [(tier, ti, part) for ti in range(len(self.types(tier))) for part in range(2 if tier == "quick" else 8)] + \
+               [(tier, "extra", g) for g in range(len(self.extra_states(tier)))]
+
+    def extra_states(self, tier):
+        """values the generic universe is too small for: option nodes that span more than one mask byte"""
+        from values import I, var, opt
+        g1 = [(opt(I), tvs) for tvs in values.long_option_values((9, 17) if tier == "quick" else (8, 9, 15, 16, 17, 25))]
+        g2 = [(var(opt(I)), tvs) for tvs in values.long_option_list_values()]
+        h = len(g1) // 2
+        return [g1[:h], g1[h:], g2]
 
     def run_shard(self, shard):
         tier, ti, part = shard
         nparts = 2 if tier == "quick" else 8
-        T = self.types(tier)[ti]
         b = self.bounds[tier]
         st = Stats()
         no = 0
         nvals = 0
-        for ai, tvs in enumerate(values.arrays(T, b["N"], b["M"], b["K"])):
+        if ti == "extra":
+            universe = [(0, T, tvs) for T, tvs in self.extra_states(tier)[part]]
+            nparts, part = 1, 0
+        else:
+            T0 = self.types(tier)[ti]
+            universe = ((ai, T0, tvs) for ai, tvs in enumerate(values.arrays(T0, b["N"], b["M"], b["K"])))
+        for ai, T, tvs in universe:
             if ai % nparts != part:
                 continue
             nvals += 1
-            if nvals > b["state_cap"]:
+            if ti != "extra" and nvals > b["state_cap"]:
                 st.caps.append("type %s part %d: value cap %d" % (values.tstr(T), part, b["state_cap"]))
                 break
             canon_d = None
